@@ -48,6 +48,10 @@ def step (_ : Unit) (op impl : String) : Unit × DrvOut :=
           s!"FAIL activation {k + 1}: the source was not given the template with the placeholders replaced by the groups and by the query of THAT activation (expected {",".intercalate (wantS.getD k [])}, got {",".intercalate (got.getD k [])})"
       ((), { model, spec })
     | _, _, _ => ((), { model := "bad-op" })
+  | ["dh", t, p, m] =>   -- what a real forward.DestHandler announces: resolved exactly once
+    match Hex.decode t, Hex.decode p, parseMatches m with
+    | some t, some p, some m => ((), verdict (resolveDest t p m) impl)
+    | _, _, _ => ((), { model := "bad-op" })
   | ["dst", t, p, m] =>
     match Hex.decode t, Hex.decode p, parseMatches m with
     | some t, some p, some m => ((), verdict (resolveDest t p m) impl)
